@@ -119,3 +119,22 @@ package encoding
 //@   requires forall(j, 0, len(vs), -(1<<62) <= vs[j] && vs[j] < 1<<62, vs[j])
 //@   requires forall(j, 0, len(vs), 0 <= dipos(vs, j) && dipos(vs, j) <= len(buffer) && dipos(vs, j) + uvlen(diE(vs, j)) <= len(buffer), dipos(vs, j))
 //@   falsify len(buffer) >= 10*len(vs)
+
+// ---- C09: ByteArraysBuilder.FinishReservation, for every number of items ----------------
+// Each pointer becomes the sum of the lengths reserved before it, and the pointer width
+// chosen for the table holds the total (so the end pointer, which is the total, is stored
+// without truncation). w is the ghost copy of the reserved lengths.
+//@ func vPsum
+//@   decreases j
+//@ func (*ByteArraysBuilder).FinishReservation
+//@   ghost w []uint64
+//@   requires b != nil && len(b.pointers) >= 1 && len(w) == len(b.pointers) && base(w) != base(b.pointers)
+//@   requires forall(j, 0, len(w), w[j] == b.pointers[j])
+//@   loop 1 invariant rangeindex >= -1 && rangeindex + 1 <= len(w) && len(b.pointers) == len(w) && base(b.pointers) == old(base(b.pointers)) && base(w) != base(b.pointers)
+//@   loop 1 invariant pointer == vPsum(w, rangeindex+1)
+//@   loop 1 invariant forall(j, 0, rangeindex+1, b.pointers[j] == vPsum(w, j))
+//@   loop 1 invariant forall(j, rangeindex+1, len(w), b.pointers[j] == w[j])
+//@   ensures forall(j, 0, len(w), b.pointers[j] == vPsum(w, j))
+//@   ensures b.layout.Items == len(w) - 1
+//@   ensures b.layout.OffsetBytes >= 1 && b.layout.OffsetBytes <= 8
+//@   ensures vFits(vPsum(w, len(w)), b.layout.OffsetBytes)
